@@ -12,18 +12,21 @@ Definition answer (n r : N) : N := (n * 7919 + r * 104729 + 13) mod 1000003.
 
 (* channel id, program, what the calls returned, what the broker saw on that channel, whether a
    call failed, and whether the server closes the channel (C09): Some (k, false) - instead of
-   answering the k-th synchronous request; Some (k, true) - right behind its answer to it *)
-Definition chanrec := (N * list call * list N * list call * bool * option (N * bool))%type.
+   answering the k-th synchronous request; Some (k, true) - right behind its answer to it;
+   last: the first error a call returned - 0 none, 1 ServerClosedChannel naming this channel with
+   the server's code and text, 2 any other *)
+Definition chanrec := (N * list call * list N * list call * bool * option (N * bool) * N)%type.
 (* mailbox bound, channels, a schedule seed for the model, hung, close() = Ok, the broker could
    not parse the client's stream, the server went away (end of stream) at some point *)
 Definition case := (N * list chanrec * list N * bool * bool * bool * bool)%type.
 
-Definition cr_id (c : chanrec) : N := let '(n, _, _, _, _, _) := c in n.
-Definition cr_prog (c : chanrec) : list call := let '(_, p, _, _, _, _) := c in p.
-Definition cr_results (c : chanrec) : list N := let '(_, _, r, _, _, _) := c in r.
-Definition cr_seen (c : chanrec) : list call := let '(_, _, _, s, _, _) := c in s.
-Definition cr_failed (c : chanrec) : bool := let '(_, _, _, _, f, _) := c in f.
-Definition cr_close (c : chanrec) : option (N * bool) := let '(_, _, _, _, _, k) := c in k.
+Definition cr_id (c : chanrec) : N := let '(n, _, _, _, _, _, _) := c in n.
+Definition cr_prog (c : chanrec) : list call := let '(_, p, _, _, _, _, _) := c in p.
+Definition cr_results (c : chanrec) : list N := let '(_, _, r, _, _, _, _) := c in r.
+Definition cr_seen (c : chanrec) : list call := let '(_, _, _, s, _, _, _) := c in s.
+Definition cr_failed (c : chanrec) : bool := let '(_, _, _, _, f, _, _) := c in f.
+Definition cr_close (c : chanrec) : option (N * bool) := let '(_, _, _, _, _, k, _) := c in k.
+Definition cr_err (c : chanrec) : N := let '(_, _, _, _, _, _, e) := c in e.
 
 Fixpoint progs_of (cs : list chanrec) (n : N) : list call :=
   match cs with
@@ -169,11 +172,14 @@ Definition chan_ok (r : chanrec) : bool :=
   | None =>
       negb (cr_failed r) && list_eqb N.eqb (cr_results r) want && list_eqb call_eqb (cr_seen r) (cr_prog r)
   | Some (k, false) =>
-      cr_failed r && list_eqb N.eqb (cr_results r) (firstn (N.to_nat k - 1) want) &&
+      (* the call in flight fails with ServerClosedChannel carrying n and the server's code and text *)
+      cr_failed r && (cr_err r =? 1) && list_eqb N.eqb (cr_results r) (firstn (N.to_nat k - 1) want) &&
       list_eqb call_eqb (cr_seen r) (upto_sync (N.to_nat k) (cr_prog r))
   | Some (k, true) =>
       list_eqb N.eqb (cr_results r) (firstn (N.to_nat k) want) &&
       (if (N.to_nat k <? length want)%nat then cr_failed r else true) &&
+      (* ... or the next call does, whenever it is made *)
+      (if cr_failed r then cr_err r =? 1 else true) &&
       (* nowait calls accepted after that may be dropped with the slot's mailbox *)
       is_prefix_calls (upto_sync (N.to_nat k) (cr_prog r)) (cr_seen r) && is_prefix_calls (cr_seen r) (cr_prog r)
   end.
